@@ -3,6 +3,13 @@ import json, os
 ROOT = os.path.dirname(os.path.dirname(os.path.abspath(__file__)))
 
 CHECKS = {
+    "C11": dict(
+        category="exploration",
+        text="Differential runtime monitor across the real entry points: for generated programs (with and without include files on a search path, every dialect) the bytes emitted by compile_clvm_text, file-to-file compile_clvm, the CLI derivation with -O, the real Python extension (compile, compile_clvm), and the real `run -O` binary (re-assembled by the real opc) must be identical; the real `cldb -t` must have compiled the program whose tree hash `run` emits with the same flags.",
+        design_ref="DESIGN.md §4 C11",
+        note="WASM glue not executed (no wasm target/node in the image)",
+        technique="runtime differential monitoring across entry points (in-process, subprocess binaries, Python extension)",
+    ),
     "C18": dict(
         category="exploration",
         text="Runtime monitor at two boundaries: the dependency listing of the real `run -M` / Python check_dependencies is compared with the files a real compilation of the same generated include graph actually opens (strace openat log), for random graphs, shadowed duplicates, embed-file kinds, dialects and search-path orders.",
